@@ -688,7 +688,22 @@ func (fr *Frame) execConvert(x *ssa.Convert, reach string, h Heap) {
 	case fb != nil && tb != nil && fb.Info()&types.IsFloat != 0 && tb.Info()&types.IsFloat != 0:
 		fr.vals[x] = Val{T: v.T, Ty: to, S: "Real"}
 	default:
-		// string <-> []byte etc: opaque
+		// []byte(s): a fresh slice holding the bytes of the string (strbytes(s), strlen(s))
+		if fb != nil && fb.Kind() == types.String && !u.so.bv {
+			if st, ok := to.Underlying().(*types.Slice); ok {
+				if eb, ok := st.Elem().Underlying().(*types.Basic); ok && eb.Kind() == types.Uint8 {
+					u.declFun("strbytes", "(Str) (Array Int Int)")
+					r := fr.newRef(h, "strbytes")
+					c, cs := u.elemComp(st.Elem())
+					cur := u.comp(h, c, cs)
+					u.assume(eq(sel(cur, r), app("strbytes", v.T)))
+					ln := app("strlen", v.T)
+					fr.setVal(x, fmt.Sprintf("(mk_Slice %s 0 %s %s)", r, ln, ln))
+					return
+				}
+			}
+		}
+		// other conversions: opaque
 		u.unsupportedAt(reach, fmt.Sprintf("conversion %s -> %s", from, to))
 		fr.havocVal(x, h)
 	}
